@@ -81,6 +81,9 @@ var whitelist = []item{
 	{Func: "Position.areCastlingFlagsConsistent", Lean: "areCastlingFlagsConsistent", Drop: []string{"pos"},
 		Opaque: map[string]string{"pos.flags": "flags:Int", "pos.board[E1]": "e1:Int", "pos.board[H1]": "h1:Int", "pos.board[A1]": "a1:Int",
 			"pos.board[E8]": "e8:Int", "pos.board[H8]": "h8:Int", "pos.board[A8]": "a8:Int"}},
+	{Func: "Position.hasRoomFor", Lean: "hasRoomFor_decision", Drop: []string{"pos"},
+		Opaque: map[string]string{"pawns.size": "pawnsSize:Int", "pieces.size": "piecesSize:Int"},
+		Skip:   []string{"pieces, pawns := &pos.blackPieces", "if p&WhitePieceBit != 0"}},
 	{Func: "terminalNodeScore", Lean: "terminalNodeScore_decision", Drop: []string{"position"},
 		Opaque: map[string]string{"position.isCurrentKingUnderCheck()": "inCheck:Bool"}, Skip: []string{"evaluatedNodes++"}},
 	{Func: "appendCapture", Lean: "appendCapture_ranking", ExprVar: "captureRanking"},
